@@ -2,7 +2,7 @@
    Only statements; proofs are in Proofs/ResP*.v and Proofs/WorkerP*.v. *)
 From Coq Require Import ZArith Bool List.
 Import ListNotations.
-From Verif Require Import Model.Val Model.Res Model.Worker Proofs.ResP Proofs.ResP2 Proofs.WorkerP Proofs.WorkerP2.
+From Verif Require Import Model.Val Model.Res Model.Worker Proofs.ResP Proofs.ResP2 Proofs.WorkerP Proofs.WorkerP2 Proofs.WorkerP3 Proofs.WorkerPR.
 Open Scope Z_scope.
 
 (* For every history of allocate / allocate_multiple / deallocate / get_allocated_resources on a
@@ -106,3 +106,61 @@ Theorem C04_worker_remove_all : forall tbl w, WInv tbl w ->
   r_allocs (w_res w) = [] /\ r_avail (w_res w) = r_total (w_res w).
 Proof. exact winv_empty_full. Qed.
 Print Assumptions C04_worker_remove_all.
+
+(* C01, worker half (a corollary of the ledger): what the residents demand is exactly what the ledger
+   has allocated, so it never exceeds the configured capacity, for every resource name *)
+Theorem C04_worker_demand_is_allocated : forall tbl w n, WInv tbl w ->
+  demand_name w n = allocs_sum (name_is n) (r_allocs (w_res w)).
+Proof. exact demand_eq_allocated. Qed.
+Print Assumptions C04_worker_demand_is_allocated.
+Theorem C04_worker_demand_le_capacity : forall tbl w n, WInv tbl w -> demand_name w n <= cap_name w n.
+Proof. exact demand_le_capacity. Qed.
+Print Assumptions C04_worker_demand_le_capacity.
+
+(* ---- what is FALSE without the hypotheses above (same witnesses as corpus/C04, replayed on /repo) ---- *)
+Theorem C04_replace_resident_refuted :
+  exists id v ops, let w := w_run ops (w_new id v) in w_placed w = [] /\ r_allocs (w_res w) <> [].
+Proof. exact replace_resident_refuted. Qed.
+Print Assumptions C04_replace_resident_refuted.
+Theorem C04_replace_resident_pool_refuted :
+  exists P ops, let P' := p_run ops P in p_placed P' = [] /\ exists W, In W (p_workers P') /\ w_placed W <> [].
+Proof. exact replace_resident_pool_refuted. Qed.
+Print Assumptions C04_replace_resident_pool_refuted.
+Theorem C04_empty_request_refuted :
+  exists id v t s, let w := fst (w_place t s (w_new id v)) in
+    snd (w_place t s (w_new id v)) = Ok tt /\ snd (w_remove t w) = Err E_VALUE /\ w_placed (fst (w_remove t w)) <> [].
+Proof. exact empty_request_refuted. Qed.
+Print Assumptions C04_empty_request_refuted.
+Theorem C04_copy_mixed_vector_refuted : exists v ops, r_copy (r_run ops (r_new v)) = Err E_VALUE.
+Proof. exact copy_mixed_vector_refuted. Qed.
+Print Assumptions C04_copy_mixed_vector_refuted.
+Theorem C04_copy_mixed_vector_getters_refuted :
+  exists v ops R' r, let R := r_run ops (r_new v) in r_copy R = Ok R' /\ r_available R' r <> r_available R r.
+Proof. exact copy_mixed_vector_getters_refuted. Qed.
+Print Assumptions C04_copy_mixed_vector_getters_refuted.
+Theorem C04_pool_wide_load_refuted : exists P p s P' e, p_load p s None P = (P', Err e) /\ P' <> P.
+Proof. exact pool_wide_load_refuted. Qed.
+Print Assumptions C04_pool_wide_load_refuted.
+Theorem C04_timer_aliasing_refuted :
+  exists objs cs c, let W := fst (fold_left (fun Wc c => world_step (fst Wc) c) cs (mkWorld objs 1000000, 0)) in
+    nth_error (wo_objs (fst (world_step W c))) 0 <> nth_error (wo_objs W) 0 /\
+    match c with CWorker i _ => i <> O | _ => False end.
+Proof. exact timer_aliasing_refuted. Qed.
+Print Assumptions C04_timer_aliasing_refuted.
+Theorem C04_copy_drops_batch_refuted :
+  exists id v t s w', let w := fst (w_place t s (w_new id v)) in
+    w_copy w = Ok w' /\ w_fits s w = true /\ w_fits s w' = false.
+Proof. exact copy_drops_batch_refuted. Qed.
+Print Assumptions C04_copy_drops_batch_refuted.
+Theorem C04_double_load_refuted :
+  exists id v ops, let w := w_run ops (w_new id v) in w_pend_prof w <> [] /\ r_allocs (w_res w) = [].
+Proof. exact double_load_refuted. Qed.
+Print Assumptions C04_double_load_refuted.
+Theorem C04_negative_quantity_refuted :
+  exists v ops k q, In (k, q) (r_avail (r_run ops (r_new v))) /\ q < 0.
+Proof. exact negative_quantity_refuted. Qed.
+Print Assumptions C04_negative_quantity_refuted.
+Theorem C04_refusal_empty_entry_refuted :
+  exists R req c R' e, r_allocate_multiple R req c = (R', Err e) /\ R' <> R.
+Proof. exact refusal_empty_entry_refuted. Qed.
+Print Assumptions C04_refusal_empty_entry_refuted.
